@@ -26,6 +26,11 @@ on values at type boundaries (u8/u16/u32 limits of counts, lengths, distances, s
 cancellation, exact zeros, negative or infinite user values, f32 vs f64); on unusual but legal file layouts (optional columns, tag order,
 split or repeated records, white space, names that look like keywords); on rare graph shapes (very deep, very wide, shortcuts, several roots,
 unusual id numbering relative to the hierarchy); on a particular construction path only; on two cooperating edits that each look harmless.
+Also: trait impls nobody looks at (Hash / Eq / Ord / PartialEq between different types, Extend, FromIterator, IntoIterator for owned and
+borrowed values, Default, Clone::clone_from, ExactSizeIterator / DoubleEndedIterator / size_hint of the crate's own iterators), file-based entry
+points versus their in-memory twins, public `*_mut` accessors and setters used after construction, operations applied twice or in the
+opposite order, inputs where two things that are usually different coincide (same id for a gene and a disease, same name for two records,
+a term that is its own replacement, root == leaf, both arguments the same object).
 Stay inside the property's quantifier: the violating input must be one the statement covers."""
 
 for pid in sorted(props):
